@@ -130,8 +130,9 @@ type RandCfg struct {
 	LateP         int      `json:"latep"`  // percent of implementation calls left unanswered (answered late)
 	SendP         int      `json:"sendp"`  // percent chance to send the next request when other steps are enabled
 	Probe         bool     `json:"probe"`
-	Insane        bool     `json:"insane"`        // also use fids the client does not know to be valid / free
-	CbGate        bool     `json:"cbgate"`        // FidDestroy / ConnClosed callbacks are slow (parked) once the client has gone
+	Insane        bool     `json:"insane"` // also use fids the client does not know to be valid / free
+	CbGate        bool     `json:"cbgate"` // FidDestroy / ConnClosed callbacks are slow (parked) once the client has gone
+	CbGateAlways  bool     `json:"cbgatealways"`
 	CloseVariants bool     `json:"closevariants"` // end the connection by EOF, an oversize header or an unparsable frame
 }
 
@@ -162,7 +163,8 @@ func TestRandom(t *testing.T) {
 		rng := rand.New(rand.NewSource(seed*1000003 + int64(ci)))
 		var done [][]any
 		k, left := RunCase(t, lg, cfg, seed*7919+int64(ci), func(k *Case) {
-			k.C.Ops.GateCb = rc.CbGate
+			k.C.Ops.GateCb = rc.CbGate || rc.CbGateAlways
+			k.C.Ops.GateCbAlways = rc.CbGateAlways
 			if rc.CloseVariants {
 				k.CloseBy = []string{"", "oversize", "badframe"}[rng.Intn(3)]
 			}
